@@ -6,6 +6,7 @@ def text_edit(old, new):
         return src.replace(old, new, 1) if old in src else None
     return edit
 MUTANTS = [
+    Mutant('tad_workaround_removed', 'src/pharmpy/modeling/data.py', text_edit("        di = update_datainfo(temp.datainfo, df)\n        new_idvcol = di.idv_column.replace(type='unknown')\n        new_timecol = di['_NEWTIME'].replace(type='idv')\n        di = di.set_column(new_idvcol).set_column(new_timecol)\n        temp = temp.replace(datainfo=di, dataset=df)", "        temp = temp.replace(dataset=df)"), 'Q8', 'idv column not redirected'),
     Mutant('reset_only_evid3', 'src/pharmpy/modeling/data.py', text_edit("        df['_FLAG'] = df[eventcol] >= 3", "        df['_FLAG'] = df[eventcol] == 3"), 'Q5', 'EVID 4 does not reset'),
     Mutant('sort_unstable', 'src/pharmpy/modeling/data.py', text_edit("x.sort_values(by='_TIMES', kind='stable')", "x.sort_values(by='_TIMES')"), 'Q6', 'unstable sort'),
     Mutant('typeix_keeps_dropped', 'src/pharmpy/model/datainfo.py', text_edit("cols = [col for col in self._obj if col.type == i and not col.drop]", "cols = [col for col in self._obj if col.type == i]"), 'Q7', 'dropped columns returned'),
